@@ -853,7 +853,7 @@ def quota_flow(q: int, size: int) -> bool:
 
 # growth chains: every payload of the standard context is wrapped (in this process) to record the largest argument
 _WRAPPED = {'done': False, 'max': 0, 'where': None}
-SIZED_TYPES = (str, tuple, list, dict, set, frozenset, utils.FrozenDict)
+SIZED_TYPES = (str, tuple, list, dict, set, frozenset, utils.FrozenDict, int)
 
 
 def _wrap_payloads():
@@ -889,6 +889,7 @@ CHAINS = {
     'str*': ('"abcdefghij"', ' * 3'), 'list*': ('[1,2,3,4]', ' * 3'),
     'join': ('"abcdefghij"', '.replace("a", "aaaa")'), 'dict.set': ('{a => 1}', '.set(k%d, "v")'),
     'join-list': ('[abcdefgh]', '.select($ + $).toList()'), 'append': ('[1,2,3,4]', '.append(1,2,3,4,5,6,7,8)'),
+    'int*': ('999999999999999999999999999999999999999999999999999999999999999999999999999999999999999999999999999999999999999999999999', ' * 999999999999999999999999999999999999999999999999999999999999999999999999999999999999999999999999999999999999999999999999'),
     'str-join': ('[abcd, efgh]', '.select($.join([$, $]))'), 'dict+': ('{a => 1}', ' + {k%d => 1, j%d => 2, l%d => 3}'),
 }
 
@@ -1052,7 +1053,7 @@ def conditions(tier, seed):
                 'number (%s subclass instance; Python integers are unbounded); %s' % (kind, QUOTA_EXPRS[which]), t, expr=which,
                 marker=kind)
     for name in CHAINS:
-        if q and name not in ('str+', 'list+', 'dict.set', 'append'):
+        if q and name not in ('str+', 'list+', 'dict.set', 'append', 'int*'):
             continue
         add('growth_chain[%s]' % name, 'growth_chain', 'Q in [60,400], steps in [0,4]; %s%s...' % CHAINS[name], 150 if q else 600,
             chain=name)
